@@ -363,7 +363,45 @@ func ruleC13R1(w *World, r *Report) {
 // isShiftSplitStore: store dominated by the true edge of Kind == ">>" on the current token, storing
 // ">" (Kind, Raw) or Pos+1 (Pos).
 func (w *World) isShiftSplitStore(st *ssa.Store, field string) bool {
-	b := st.Block()
+	guarded := w.underShiftKind(st.Block())
+	if !guarded {
+		// the split written once as a helper of the parser (splitShiftRight): every call of it is under the test
+		fn := st.Parent()
+		sites := w.callersOf(fn)
+		n := 0
+		guarded = len(naturalLoops(fn)) == 0
+		for _, s := range sites {
+			if s.Parent() != nil && s.Parent().Synthetic != "" {
+				continue
+			}
+			n++
+			if !w.underShiftKind(s.Block()) {
+				guarded = false
+			}
+		}
+		guarded = guarded && n > 0
+	}
+	if !guarded {
+		return false
+	}
+	switch field {
+	case "Kind", "Raw":
+		s, ok := constString(st.Val)
+		return ok && s == ">"
+	case "Pos":
+		bo, ok := st.Val.(*ssa.BinOp)
+		if !ok || bo.Op != token.ADD {
+			return false
+		}
+		k, ok := constInt(bo.Y)
+		f, _, isTok := w.curTokenField(bo.X)
+		return ok && k == 1 && isTok && f == "Pos"
+	}
+	return false
+}
+
+// underShiftKind: b is reached only through the equal side of a test Kind == ">>" of the current token.
+func (w *World) underShiftKind(b *ssa.BasicBlock) bool {
 	guarded := false
 	for d := b; d != nil; d = d.Idom() {
 		p := d.Idom()
@@ -386,23 +424,7 @@ func (w *World) isShiftSplitStore(st *ssa.Store, field string) bool {
 			guarded = true
 		}
 	}
-	if !guarded {
-		return false
-	}
-	switch field {
-	case "Kind", "Raw":
-		s, ok := constString(st.Val)
-		return ok && s == ">"
-	case "Pos":
-		bo, ok := st.Val.(*ssa.BinOp)
-		if !ok || bo.Op != token.ADD {
-			return false
-		}
-		k, ok := constInt(bo.Y)
-		f, _, isTok := w.curTokenField(bo.X)
-		return ok && k == 1 && isTok && f == "Pos"
-	}
-	return false
+	return guarded
 }
 
 // advancingBetween enumerates the paths from instruction a to instruction b (each block at most once
